@@ -273,13 +273,20 @@ class Engine(
                 if (
                     select.has_sort
                     and not select.sort.columns_required <= columns
-                    and (select.has_deduplication or select.is_compound)
+                    and (
+                        not select.sort.columns_required <= select.columns
+                        if select.has_deduplication
+                        else select.is_compound
+                    )
                 ):
                     # The existing Sort needs columns this Projection drops,
-                    # and it cannot stay in the same SELECT as the Projection
-                    # (the Projection goes outside a DISTINCT subquery or
-                    # inside the UNION operands), so the existing query has to
-                    # become a subquery, which only preserves order if sliced.
+                    # and it cannot stay in the same SELECT as the Projection:
+                    # the Projection goes inside the UNION ALL operands, or it
+                    # goes outside a DISTINCT subquery together with the Sort
+                    # (the branch below), which then must not need a column
+                    # this SELECT's own Projection already hides.  The
+                    # existing query has to become a subquery, which only
+                    # preserves order if sliced.
                     if not select.has_slice:
                         raise RelationalAlgebraError(
                             f"Applying {operation} to relation {select} will not preserve row order."
